@@ -5,6 +5,7 @@ import (
 	"go/ast"
 	"go/token"
 	"go/types"
+	"sort"
 	"strings"
 )
 
@@ -116,6 +117,30 @@ func (env *Env) evalCall(x *ast.CallExpr, st *State) Val {
 				a := env.eval(x.Args[0], st)
 				b := env.eval(x.Args[1], st)
 				return specBytesHasPrefix(env, nil, []Val{a, b}, st, x)
+			case "remaining":
+				// remaining(r): what io.ReadAll(r) returns for an io.Reader r (ghost data from pos)
+				r := env.eval(x.Args[0], st)
+				_, _, data, pos, _ := readerState(env, st, r)
+				return ioRest(env, st, data, pos)
+			case "jsonof":
+				// jsonof(data, T{}): the value json.Unmarshal stores for these bytes in a T
+				d := env.eval(x.Args[0], st)
+				t := env.typeOfExpr(x.Args[1])
+				if cl, ok := unparen(x.Args[1]).(*ast.CompositeLit); ok && cl.Type != nil {
+					t = env.typeOfExpr(cl.Type)
+				}
+				return jsonDecoded(env, d, t)
+			case "called":
+				// called(Name): a call of Name happened on the path that reached this point
+				// (loops forget the calls of their bodies: use it for straight-line code)
+				if id, ok := unparen(x.Args[0]).(*ast.Ident); ok {
+					for _, p := range st.calls {
+						if p == id.Name {
+							return boolVal("true")
+						}
+					}
+				}
+				return boolVal("false")
 			case "blocking":
 				// blocking(f): the function value f waits on a channel when called. For a
 				// function literal this is decided syntactically; otherwise it is an
@@ -361,9 +386,12 @@ func (env *Env) evalQuant(kind string, x *ast.CallExpr, st *State) Val {
 	var bnames []string
 	var guards []string
 	var lo, hi string
-	if len(x.Args) == 3 {
+	var hintExprs []ast.Expr
+	if len(x.Args) >= 3 {
 		lo = env.eval(x.Args[0], st).T
 		hi = env.eval(x.Args[1], st).T
+		// exists(lo, hi, hint..., func(g int) bool {...}): candidate witnesses (see below)
+		hintExprs = x.Args[2 : len(x.Args)-1]
 	}
 	for _, f := range fl.Type.Params.List {
 		t := env.typeOfExpr(f.Type)
@@ -398,6 +426,18 @@ func (env *Env) evalQuant(kind string, x *ast.CallExpr, st *State) Val {
 	sub.noSafety = true
 	body := sub.evalBool(ret.Results[0], scratch)
 	extra := scratch.pc[n:]
+	for k, v := range scratch.skw {
+		if st.skw == nil {
+			st.skw = map[string]string{}
+		}
+		st.skw[k] = v
+	}
+	// heap maps first read inside the body belong to this state (reads create no new values)
+	for k, v := range scratch.heap {
+		if _, ok := st.heap[k]; !ok {
+			st.heap[k] = v
+		}
+	}
 	// read-time type facts met inside the body are always true: assert them as
 	// axioms (quantified when they mention a bound variable) instead of guarding the body
 	for _, ex := range extra {
@@ -441,10 +481,98 @@ func (env *Env) evalQuant(kind string, x *ast.CallExpr, st *State) Val {
 	var q string
 	if kind == "forall" {
 		q = fmt.Sprintf("(forall (%s) %s)", strings.Join(binders, " "), implies(g, body))
+		if len(hintExprs) > 0 && len(bnames) == 1 {
+			// forall(lo, hi, hint..., func(j) P): the instances at the hint terms are conjoined
+			// (they are implied by the quantifier, so the formula is equivalent): hypotheses
+			// then offer these instances without any trigger
+			parts := []string{q}
+			for _, h := range hintExprs {
+				hv := env.eval(h, st)
+				parts = append(parts, implies(substToken(g, bnames[0], hv.T), substToken(body, bnames[0], hv.T)))
+			}
+			q = and(parts...)
+		}
 	} else {
 		q = fmt.Sprintf("(exists (%s) %s)", strings.Join(binders, " "), and(g, body))
+		if len(hintExprs) > 0 && len(bnames) == 1 {
+			q = env.existsWithWitnesses(st, x, q, bnames[0], g, body, hintExprs)
+		}
 	}
 	return boolVal(q)
+}
+
+// existsWithWitnesses: exists(lo, hi, hints..., func(g) P). The quantifier gets a Skolem
+// function sk of the enclosing bound variables with the (always sound, conservative) axiom
+//
+//	(exists g. R(g) and P(g))  ==>  R(sk) and P(sk)
+//
+// and the formula itself is extended by explicit candidates - the hint terms and the Skolem
+// term introduced when the same clause was last evaluated in this path's history:
+//
+//	(exists g. R and P)  or  R(c1) and P(c1)  or ...
+//
+// which is equivalent to the plain quantifier (every disjunct implies it). Proving an
+// invariant "exists" after a loop step then needs no quantifier instantiation: the old
+// witness or the hinted new one is tried directly.
+func (env *Env) existsWithWitnesses(st *State, x *ast.CallExpr, q, bn, guard, body string, hints []ast.Expr) string {
+	c := env.c
+	c.nfresh++
+	sk := fmt.Sprintf("|skw!%d|", c.nfresh)
+	var sorts []string
+	for _, qv := range env.qvars {
+		sorts = append(sorts, strings.TrimSuffix(strings.SplitN(qv, " ", 2)[1], ")"))
+	}
+	c.decls.declFun(sk, sorts, "Int")
+	skT := app(sk, env.qnames...)
+	inst := func(t string) string { return and(substToken(guard, bn, t), substToken(body, bn, t)) }
+	cands := []string{q}
+	key := fmt.Sprint(x.Pos())
+	if prev, ok := st.skw[key]; ok {
+		cands = append(cands, inst(app(prev, env.qnames...)))
+	}
+	if st.skw == nil {
+		st.skw = map[string]string{}
+	}
+	st.skw[key] = sk
+	for _, h := range hints {
+		hv := env.eval(h, st)
+		cands = append(cands, inst(hv.T))
+	}
+	full := or(cands...)
+	// Skolem axiom on the extended formula (each candidate implies the quantifier, so this is
+	// the same axiom): as a hypothesis the formula yields its Skolem witness by modus ponens
+	ax := implies(full, inst(skT))
+	if len(env.qvars) > 0 {
+		st.assumeOnce("(! " + ax + " :pattern (" + skT + "))")
+	} else {
+		st.assumeOnce(ax)
+	}
+	return full
+}
+
+// substToken replaces the bound-variable token name by term t in an SMT string.
+func substToken(s, name, t string) string {
+	var b strings.Builder
+	i := 0
+	for i < len(s) {
+		j := strings.Index(s[i:], name)
+		if j < 0 {
+			b.WriteString(s[i:])
+			break
+		}
+		j += i
+		end := j + len(name)
+		okL := j == 0 || s[j-1] == ' ' || s[j-1] == '('
+		okR := end == len(s) || s[end] == ' ' || s[end] == ')'
+		b.WriteString(s[i:j])
+		if okL && okR {
+			b.WriteString(t)
+		} else {
+			b.WriteString(name)
+		}
+		i = end
+	}
+	return b.String()
 }
 
 func (env *Env) evalBuiltin(name string, x *ast.CallExpr, st *State) Val {
@@ -601,6 +729,16 @@ func (env *Env) applyFuncValue(fv Val, args []Val, st *State, call *ast.CallExpr
 		if fv.Fn.Func != nil && fv.Fn.Func.Obj != nil {
 			return env.callFunc(fv.Fn.Func.Obj, fv.Fn.Recv, args, st, call)
 		}
+		if fv.Fn.Obj != nil {
+			// a library function used as a value (cmp.Compare, ...): its native specification
+			full := fv.Fn.Obj.FullName()
+			if o := fv.Fn.Obj.Origin(); o != nil {
+				full = o.FullName()
+			}
+			if spec, ok := stdSpecs[full]; ok {
+				return spec(env, nil, args, st, call)
+			}
+		}
 	}
 	sig, ok := types.Unalias(env.subst(fv.Ty)).Underlying().(*types.Signature)
 	if !ok {
@@ -673,10 +811,52 @@ func (env *Env) callFunc(fobj *types.Func, recv *Val, args []Val, st *State, cal
 		// exported variants map to the same code
 		return env.evalQuantGo(fobj.Name(), call, st)
 	}
+	var recvTy types.Type
+	if recv != nil {
+		recvTy = recv.Ty
+	}
+	fi := env.resolveCallee(fobj, recvTy)
+	if fi != nil && fi.Ghost && fi.Decl != nil {
+		return env.inlineFunc(fi, recv, args, st, call)
+	}
+	if fi != nil && fi.Contract != nil && !fi.Contract.Inline {
+		return env.applyContract(fi, recv, args, st, call)
+	}
+	if fi != nil && fi.Decl != nil && fi.Decl.Body != nil && c.inlineDepth < 4 {
+		if c.e.inlineable(fi) || (fi.Contract != nil && fi.Contract.Inline) {
+			return env.inlineFunc(fi, recv, args, st, call)
+		}
+	}
+	// unspecified callee: arbitrary results, no effect on verified state (listed) - except
+	// variables whose address is passed (&x): they hold an arbitrary value afterwards
+	c.trust("unspecified callee " + full + ": results arbitrary, assumed not to modify verified state (variables passed by address become arbitrary)")
+	c.unspecified[full] = true
+	if call != nil && !env.contract {
+		for _, a := range call.Args {
+			if ue, ok := unparen(a).(*ast.UnaryExpr); ok && ue.Op == token.AND {
+				if _, isLit := unparen(ue.X).(*ast.CompositeLit); isLit {
+					continue
+				}
+				if t := env.pkg.info.TypeOf(ue.X); t != nil {
+					c.assign(env, ue.X, env.havoc(st, "byaddr", t), st)
+				}
+			}
+		}
+	}
+	sig := fobj.Type().(*types.Signature)
+	return env.havocResults(sig, st, fobj.Name())
+}
+
+// resolveCallee finds the function under contract behind a call: a repository function, an
+// interface method with a contract attached to Iface.Method, or a library function with a
+// contract declared as "ext:pkg.Type.Method" / "ext:pkg.Func". recvTy is the static type of the
+// receiver expression (nil for plain functions).
+func (env *Env) resolveCallee(fobj *types.Func, recvTy types.Type) *FuncInfo {
+	c := env.c
 	fi := c.e.lookupFunc(fobj)
 	// interface method: look for a contract attached to Iface.Method
-	if fi == nil && recv != nil {
-		if n, ok := types.Unalias(env.subst(recv.Ty)).(*types.Named); ok {
+	if fi == nil && recvTy != nil {
+		if n, ok := types.Unalias(env.subst(recvTy)).(*types.Named); ok {
 			if _, isIf := n.Underlying().(*types.Interface); isIf && n.Obj().Pkg() != nil {
 				key := n.Obj().Pkg().Name() + "." + n.Obj().Name() + "." + fobj.Name()
 				if f2, ok := c.e.funcs[key]; ok {
@@ -708,9 +888,9 @@ func (env *Env) callFunc(fobj *types.Func, recv *Val, args []Val, st *State, cal
 			// an interface method reached through embedding (storage.File embeds io.Writer): the
 			// ghost fields of the declaring interface are not defined on the embedding one, so
 			// its contract does not apply - the call stays an unspecified callee (listed)
-			if sg, ok := fobj.Type().(*types.Signature); ok && sg.Recv() != nil && recv != nil && recv.Ty != nil {
+			if sg, ok := fobj.Type().(*types.Signature); ok && sg.Recv() != nil && recvTy != nil {
 				if _, isIf := types.Unalias(sg.Recv().Type()).Underlying().(*types.Interface); isIf {
-					if ds, rs := env.sortOf(sg.Recv().Type()), env.sortOf(recv.Ty); ds != rs && strings.HasPrefix(rs, "If_") {
+					if ds, rs := env.sortOf(sg.Recv().Type()), env.sortOf(recvTy); ds != rs && strings.HasPrefix(rs, "If_") {
 						if ts := c.e.typeSpecForSort(ds); ts != nil && len(ts.GhostFields) > 0 {
 							fi = nil
 						}
@@ -719,22 +899,7 @@ func (env *Env) callFunc(fobj *types.Func, recv *Val, args []Val, st *State, cal
 			}
 		}
 	}
-	if fi != nil && fi.Ghost && fi.Decl != nil {
-		return env.inlineFunc(fi, recv, args, st, call)
-	}
-	if fi != nil && fi.Contract != nil && !fi.Contract.Inline {
-		return env.applyContract(fi, recv, args, st, call)
-	}
-	if fi != nil && fi.Decl != nil && fi.Decl.Body != nil && c.inlineDepth < 4 {
-		if c.e.inlineable(fi) || (fi.Contract != nil && fi.Contract.Inline) {
-			return env.inlineFunc(fi, recv, args, st, call)
-		}
-	}
-	// unspecified callee: arbitrary results, no effect on verified state (listed)
-	c.trust("unspecified callee " + full + ": results arbitrary, assumed not to modify verified state")
-	c.unspecified[full] = true
-	sig := fobj.Type().(*types.Signature)
-	return env.havocResults(sig, st, fobj.Name())
+	return fi
 }
 
 func (env *Env) havocResults(sig *types.Signature, st *State, name string) Val {
@@ -990,7 +1155,7 @@ func (env *Env) applyContract(fi *FuncInfo, recv *Val, args []Val, st *State, ca
 		c.trust("trusted contract of " + fi.Key + " (body not verified)")
 	}
 	bind := env.bindArgs(fi, recv, args, st)
-	ts := env.typeSubstFor(fi, recv, args)
+	ts := env.instanceSubst(env.typeSubstFor(fi, recv, args), fi, call)
 	for k, v := range env.tsubst {
 		if ts == nil {
 			ts = map[*types.TypeParam]types.Type{}
@@ -1004,15 +1169,20 @@ func (env *Env) applyContract(fi *FuncInfo, recv *Val, args []Val, st *State, ca
 	short := strings.TrimPrefix(fi.Key, c.fi.Pkg.Name+".")
 	pre := c.contractEnv(fi, nil, bind, nil, ts)
 	pre.qvars, pre.qnames = env.qvars, env.qnames
+	var preTerms []string
+	// a call written inside a specification (contract clause, ghost function, quantifier body)
+	// creates no obligation; its postcondition is available where its precondition holds
+	specCtx := env.contract || env.ghostBody || len(env.qvars) > 0
 	for k, r := range con.Requires {
 		g := pre.evalBool(r.Expr, st)
-		if !c.noSafety {
+		preTerms = append(preTerms, g)
+		if !c.noSafety && !specCtx {
 			c.addObl(st, fmt.Sprintf("%scall%d:%s/pre#%d", env.tag(), j, short, k), "pre", g, c.e.pos(call.Pos()), "requires "+r.Text, nil)
 		}
 	}
 	for k, h := range con.Holds {
 		tok := env.lockToken(pre, h, st)
-		if !st.held[tok] && !c.noSafety {
+		if !st.held[tok] && !c.noSafety && !specCtx {
 			c.addObl(st, fmt.Sprintf("%scall%d:%s/holds#%d", env.tag(), j, short, k), "lock", "false", c.e.pos(call.Pos()), "callee requires lock "+h+" to be held", nil)
 		}
 	}
@@ -1029,13 +1199,53 @@ func (env *Env) applyContract(fi *FuncInfo, recv *Val, args []Val, st *State, ca
 	var results []Val
 	sub := &Env{c: c, tsubst: ts, qvars: env.qvars, qnames: env.qnames}
 	for i := 0; i < sig.Results().Len(); i++ {
+		if con.Pure {
+			// "pure": the results are functions of the argument values only (not of the heap
+			// behind them): the same arguments give the same results everywhere
+			rt := sub.subst(sig.Results().At(i).Type())
+			var sorts, ts2 []string
+			for _, a := range args {
+				if a.Ty == nil || a.T == "" {
+					continue
+				}
+				sorts = append(sorts, env.sortOf(a.Ty))
+				ts2 = append(ts2, a.T)
+			}
+			if recv != nil && recv.T != "" && recv.Ty != nil {
+				sorts = append(sorts, env.sortOf(recv.Ty))
+				ts2 = append(ts2, recv.T)
+			}
+			for _, rd := range con.Reads {
+				rv := pre.eval(rd.Expr, old)
+				sorts = append(sorts, pre.sortOf(rv.Ty))
+				ts2 = append(ts2, rv.T)
+			}
+			fn := fmt.Sprintf("|pure:%s#%d:%s|", fi.Key, i, strings.Join(sorts, ","))
+			c.decls.declFun(fn, sorts, sub.sortOf(rt))
+			v := Val{T: app(fn, ts2...), Ty: rt}
+			if !specCtx {
+				sub.rangeAssume(st, v)
+			}
+			results = append(results, v)
+			c.trust("pure contract of " + fi.Key + ": results are a function of the argument values")
+			continue
+		}
 		results = append(results, sub.havoc(st, "r_"+fi.Obj.Name(), sig.Results().At(i).Type()))
 	}
 	post := c.contractEnv(fi, old, bind, results, ts)
 	post.callerSide = true
 	post.qvars, post.qnames = env.qvars, env.qnames
 	for _, en := range con.Ensures {
-		st.assume(post.evalBool(en.Expr, st))
+		if con.Pure && specCtx {
+			// a pure function written in a specification is opaque: only the function term;
+			// its postcondition becomes available where the code calls it
+			break
+		}
+		e := post.evalBool(en.Expr, st)
+		if specCtx {
+			e = implies(and(preTerms...), e)
+		}
+		st.assume(e)
 	}
 	for _, en := range con.Assumes {
 		c.trust("assumed postcondition of " + fi.Key + ": " + en.Text)
@@ -1061,6 +1271,38 @@ func (env *Env) havocFrame(fi *FuncInfo, m string, ce *Env, st *State) {
 	// Type.f / pkg.Type.f : every object of that type
 	if tt := ce.frameType(base); tt != nil {
 		ssort := ce.sortOf(tt)
+		if strings.HasPrefix(ssort, "If_") {
+			// ghost field of every value of an interface type
+			if ts := c.e.typeSpecForSort(ssort); ts != nil {
+				if texpr, ok := ts.GhostFields[field]; ok {
+					gt := ce.ghostTypeOf(ts, field, texpr)
+					key := ssort + ".$" + field
+					ce.heapTermK(st, key, ssort, ce.sortOf(gt))
+					st.heap[key] = c.fresh("H'"+key, fmt.Sprintf("(Array %s %s)", ssort, ce.sortOf(gt)))
+					return
+				}
+			}
+			c.unsupported("modifies %q: no such ghost field on the interface", m)
+			return
+		}
+		if insts := c.genericInstances(tt, ssort); insts != nil {
+			// a generic type named without arguments: every instantiation in use
+			for _, is := range insts {
+				for _, fn := range c.structFields(is, field) {
+					key := is + "." + fn
+					if h, ok := st.heap[key]; ok && c.heapSorts[key] != "" {
+						_ = h
+						st.heap[key] = c.fresh("H'"+key, fmt.Sprintf("(Array Int %s)", c.heapSorts[key]))
+					} else {
+						if st.pendingHavoc == nil {
+							st.pendingHavoc = map[string]bool{}
+						}
+						st.pendingHavoc[fn] = true
+					}
+				}
+			}
+			return
+		}
 		for _, fn := range c.structFields(ssort, field) {
 			key := ssort + "." + fn
 			srt := c.fieldSortByKey(ce, tt, fn)
@@ -1169,7 +1411,7 @@ func (env *Env) inlineFunc(fi *FuncInfo, recv *Val, args []Val, st *State, call 
 	c := env.c
 	rv, ps, rs := paramObjs(fi)
 	sig := fi.Obj.Type().(*types.Signature)
-	ts := env.typeSubstFor(fi, recv, args)
+	ts := env.instanceSubst(env.typeSubstFor(fi, recv, args), fi, call)
 	for k, v := range env.tsubst {
 		if ts == nil {
 			ts = map[*types.TypeParam]types.Type{}
@@ -1178,7 +1420,8 @@ func (env *Env) inlineFunc(fi *FuncInfo, recv *Val, args []Val, st *State, call 
 			ts[k] = v
 		}
 	}
-	sub := &Env{c: c, fn: fi, pkg: c.pkgRefOf(fi), tsubst: ts, bound: map[string]Val{}, old: env.old, noSafety: env.noSafety || fi.Ghost, depth: env.depth + 1, qvars: env.qvars, qnames: env.qnames}
+	sub := &Env{c: c, fn: fi, pkg: c.pkgRefOf(fi), tsubst: ts, bound: map[string]Val{}, old: env.old, noSafety: env.noSafety || fi.Ghost, depth: env.depth + 1, qvars: env.qvars, qnames: env.qnames,
+		ghostBody: env.ghostBody || env.contract || fi.Ghost}
 	if env.oldMode {
 		sub.oldMode = true
 	}
@@ -1211,6 +1454,38 @@ func (env *Env) inlineFunc(fi *FuncInfo, recv *Val, args []Val, st *State, call 
 		}
 	}
 	_ = sig
+	// slice parameters share their backing array with the caller's argument: element writes
+	// of the callee (b[i] = v, copy(b, ..), PutUintN(b, ..)) are written back to the argument
+	// expression when the callee never re-slices or reassigns the parameter itself
+	initSl := map[*types.Var]Val{}
+	for i, p := range ps {
+		if p == nil || call == nil || i >= len(call.Args) || (sig.Variadic() && i == len(ps)-1) {
+			continue
+		}
+		if _, ok := types.Unalias(sub.subst(p.Type())).Underlying().(*types.Slice); ok {
+			initSl[p] = st.vars[p]
+		}
+	}
+	writeBack := func() {
+		for i, p := range ps {
+			init, ok := initSl[p]
+			if !ok {
+				continue
+			}
+			fin, ok := st.vars[p]
+			if !ok || fin.T == init.T {
+				continue
+			}
+			if paramReassigned(fi, p) {
+				c.unsupported("slice parameter %s of inlined %s is both reassigned and written", p.Name(), fi.Key)
+				continue
+			}
+			switch unparen(call.Args[i]).(type) {
+			case *ast.Ident, *ast.SelectorExpr, *ast.SliceExpr, *ast.IndexExpr:
+				defer func(arg ast.Expr, v Val) { c.assignSliceTarget(env, arg, v, st) }(call.Args[i], fin)
+			}
+		}
+	}
 	var result Val
 	// fast path: single return statement
 	body := fi.Decl.Body
@@ -1235,6 +1510,7 @@ func (env *Env) inlineFunc(fi *FuncInfo, recv *Val, args []Val, st *State, call 
 			}
 			c.inlineTag = oldTag
 			c.inlineDepth--
+			writeBack()
 			for o := range had {
 				if had[o] {
 					st.vars[o] = saved[o]
@@ -1268,6 +1544,7 @@ func (env *Env) inlineFunc(fi *FuncInfo, recv *Val, args []Val, st *State, call 
 	c.inlineTag = oldTag
 	c.inlineDepth--
 	result = c.mergeReturns(env, st, base, fr, sig)
+	writeBack()
 	for o := range had {
 		if had[o] {
 			st.vars[o] = saved[o]
@@ -1276,6 +1553,22 @@ func (env *Env) inlineFunc(fi *FuncInfo, recv *Val, args []Val, st *State, call 
 		}
 	}
 	return result
+}
+
+// paramReassigned: does the body assign to the parameter variable itself (b = ..., b, x = ...)?
+func paramReassigned(fi *FuncInfo, p *types.Var) bool {
+	found := false
+	ast.Inspect(fi.Decl.Body, func(n ast.Node) bool {
+		if as, ok := n.(*ast.AssignStmt); ok {
+			for _, l := range as.Lhs {
+				if id, ok := unparen(l).(*ast.Ident); ok && fi.Pkg.TypesInfo.Uses[id] == p {
+					found = true
+				}
+			}
+		}
+		return true
+	})
+	return found
 }
 
 func prefixTag(t string) string {
@@ -1680,7 +1973,9 @@ func (env *Env) callHooksNamed(name string, recv *Val, args []Val, st *State, ca
 			ie.bound["recv_"] = *recv
 		}
 		g := ie.evalBool(ac.Clause.Expr, st)
+		c.curGroup = ac.Clause.Group
 		c.addObl(st, fmt.Sprintf("atcall%d:%s#%d", c.ordinal("atcall/"+name), name, k), "atcall", g, c.e.pos(call.Pos()), "atcall "+name+": "+ac.Clause.Text, nil)
+		c.curGroup = ""
 	}
 	st.calls = append(st.calls, name)
 }
@@ -1714,4 +2009,73 @@ func (c *Ctx) callOccurrence(name string, call *ast.CallExpr) int {
 		return k
 	}
 	return -1
+}
+
+// genericInstances: for a generic named struct type written without type arguments, the struct
+// sorts of its instantiations known so far (nil for non-generic types).
+func (c *Ctx) genericInstances(tt types.Type, base string) []string {
+	n, ok := types.Unalias(tt).(*types.Named)
+	if !ok || n.TypeParams() == nil || n.TypeParams().Len() == 0 || (n.TypeArgs() != nil && n.TypeArgs().Len() > 0) {
+		return nil
+	}
+	var out []string
+	for name := range c.e.types.structs {
+		if strings.HasPrefix(name, base+"_") {
+			out = append(out, name)
+		}
+	}
+	sort.Strings(out)
+	if out == nil {
+		out = []string{}
+	}
+	return out
+}
+
+
+// instanceSubst completes a type substitution with the type arguments the type checker
+// recorded for this call (explicit f[T]() or inferred).
+func (env *Env) instanceSubst(ts map[*types.TypeParam]types.Type, fi *FuncInfo, call *ast.CallExpr) map[*types.TypeParam]types.Type {
+	if call == nil || fi == nil || fi.Obj == nil || env.pkg == nil || env.pkg.info == nil {
+		return ts
+	}
+	sig, ok := fi.Obj.Type().(*types.Signature)
+	if !ok || sig.TypeParams() == nil || sig.TypeParams().Len() == 0 {
+		return ts
+	}
+	fun := unparen(call.Fun)
+	for {
+		switch x := fun.(type) {
+		case *ast.IndexExpr:
+			fun = unparen(x.X)
+			continue
+		case *ast.IndexListExpr:
+			fun = unparen(x.X)
+			continue
+		}
+		break
+	}
+	var id *ast.Ident
+	switch x := fun.(type) {
+	case *ast.Ident:
+		id = x
+	case *ast.SelectorExpr:
+		id = x.Sel
+	}
+	if id == nil {
+		return ts
+	}
+	inst, ok := env.pkg.info.Instances[id]
+	if !ok || inst.TypeArgs == nil {
+		return ts
+	}
+	if ts == nil {
+		ts = map[*types.TypeParam]types.Type{}
+	}
+	for i := 0; i < sig.TypeParams().Len() && i < inst.TypeArgs.Len(); i++ {
+		tp := sig.TypeParams().At(i)
+		if _, have := ts[tp]; !have {
+			ts[tp] = env.subst(inst.TypeArgs.At(i))
+		}
+	}
+	return ts
 }
